@@ -151,6 +151,25 @@ let show_ev name =
   emit (Printf.sprintf "%s tab=%s" name (Stdlib.String.concat "," (List.map ev_str tb)))
 let ev_value s = if s = "inf" then inf else int_of_string s
 
+
+(* ---- EV+ at table level: tables are in the order of [all_asg] ---- *)
+let ev_get name : string * z option list =
+  let (fn, tb) = Hashtbl.find evtabs name in
+  (fn, List.map (fun v -> if v >= inf then None else Some (z_of_int v)) tb)
+let ev_put name fn (tb : z option list) =
+  Hashtbl.replace evtabs name (fn, List.map (function None -> inf | Some v -> int_of_z v) tb)
+(* index of an assignment in the table of forest f (top level most significant) *)
+let tab_index f (y : nat -> nat) =
+  let idx = ref 0 in
+  for lv = nlev f downto 1 do
+    idx := !idx * int_of_nat (szf f (nat_of_int lv)) + int_of_nat (y (nat_of_int lv))
+  done;
+  !idx
+let dd_of_table f (tb : z list) : dd =
+  let arr = Array.of_list tb in
+  of_fun (szf f) f.rule (nat_of_int (nlev f)) O (fun y -> arr.(tab_index f y)) (fun _ -> O)
+let everr_name = function ESubInf -> "SUBTRACT_INFINITY" | EDivZero -> "DIVIDE_BY_ZERO" | EInfDivInf -> "INFINITY_DIV_INFINITY"
+
 (* ---- parsing helpers ---- *)
 
 let value f s =
@@ -604,6 +623,54 @@ let rec run toks =
     if fa.range <> RBool || fb.range <> RBool || fr.range <> RBool then raise Unsupported;
     let t = cross_dd (szf fa) (nat_of_int (Array.length fa.sizes)) fa.rule fb.rule fr.rule ta tb in
     set_edge r fn t; show r
+  | "apply" :: r :: fn :: op :: a :: b :: _
+    when Hashtbl.mem evtabs a && Hashtbl.mem evtabs b
+         && (match op with "plus" | "minus" | "mult" | "div" | "mod" | "max" | "min"
+                         | "eq" | "ne" | "lt" | "le" | "gt" | "ge" -> true | _ -> false) ->
+    (* element-wise operations on EV+ operands, at table level *)
+    Hashtbl.remove edges r; Hashtbl.remove evtabs r;
+    let fr = get_forest fn in
+    let (fan, ta) = ev_get a and (fbn, tb) = ev_get b in
+    let fa = get_forest fan and fb = get_forest fbn in
+    if fa.lab <> EVP || fb.lab <> EVP then raise Unsupported;
+    if not (same_shape fa fb && same_shape fa fr) || fa.sizes <> fb.sizes || fa.sizes <> fr.sizes then raise Unsupported;
+    let o = binop_of op in
+    (match o with
+     | OEq | ONe | OLt | OLe | OGt | OGe ->
+       if fr.lab <> MT then raise (Err "TYPE_MISMATCH");
+       if fr.range = RReal then raise Unsupported;
+       let t = dd_of_table fr (List.map2 (fun x y -> ev_compare o (z_of_int (one fr)) x y) ta tb) in
+       set_edge r fn t; show r
+     | _ ->
+       if fr.lab <> EVP then raise Unsupported;
+       let errs = List.sort_uniq compare
+           (List.filter_map (fun e -> e) (List.map2 (fun x y -> ev_undefined o x y) ta tb)) in
+       (match errs with
+        | [] -> ev_put r fn (List.map2 (fun x y -> ev_scalar2 o x y) ta tb); show_ev r
+        | [e] -> raise (Err (everr_name e))
+        | _ -> raise Unsupported))
+  | "unary" :: r :: fn :: "copy" :: a :: _
+    when Hashtbl.mem evtabs a || (try (get_forest fn).lab = EVP with _ -> false) ->
+    (* COPY with an EV+ source or target, at table level *)
+    Hashtbl.remove edges r; Hashtbl.remove evtabs r;
+    let fr = get_forest fn in
+    if Hashtbl.mem evtabs a then begin
+      let (fan, ta) = ev_get a in
+      let fa = get_forest fan in
+      if fa.lab <> EVP || not (same_shape fa fr) || fa.sizes <> fr.sizes then raise Unsupported;
+      match fr.lab with
+      | EVP -> ev_put r fn ta; show_ev r
+      | MT ->
+        let t = dd_of_table fr (List.map (conv_from_ev (fr.range = RBool) (z_of_int (scale fr))) ta) in
+        set_edge r fn t; show r
+      | _ -> raise Unsupported
+    end else begin
+      let (fan, ta) = get_edge a in
+      let fa = get_forest fan in
+      if fa.lab <> MT || fr.lab <> EVP || not (same_shape fa fr) || fa.sizes <> fr.sizes then raise Unsupported;
+      let tb = table (szf fa) fa.rule (nat_of_int (nlev fa)) ta in
+      ev_put r fn (List.map (conv_to_ev (z_of_int (scale fa))) tb); show_ev r
+    end
   | "apply" :: r :: fn :: op :: a :: b :: _ ->
     Hashtbl.remove edges r; Hashtbl.remove evtabs r;
     let fr = get_forest fn in
